@@ -79,7 +79,7 @@ def num_or_str(tok):
     try:
         f = float(tok)
         return int(f) if f == int(f) else f
-    except ValueError:
+    except (ValueError, OverflowError):
         return tok
 
 
@@ -232,8 +232,15 @@ def rc_new(mode, cols, kindof, rows=None):
 def rc_apply(rc, op):
     try:
         o = op["op"]
-        if o == "append_list":
-            rc.append([dec(c) for c in op["row"]])
+        if o == "append_list":                    # the row as a list, a tuple or (all integers) a NumPy array
+            vals = [dec(c) for c in op["row"]]
+            form = op.get("as", "list")
+            if form == "ndarray" and all(isinstance(v, int) for v in vals):
+                import numpy as np
+                vals = np.array(vals)
+            elif form != "list":
+                vals = tuple(vals)
+            rc.append(vals)
         elif o == "append_dict":
             rc.append({name: dec(v) for name, v in op["row"]})
         elif o == "sort":
@@ -250,7 +257,7 @@ def rc_apply(rc, op):
         return True
 
 
-def rc_obs(rc, kindof, full=True):
+def rc_obs(rc, kindof, full=True, files=False):
     o = {}
     s1, s2 = rc.size(), len(rc)
     o["size"] = s1 if s1 == s2 else -1          # size() and len() differ
@@ -277,6 +284,25 @@ def rc_obs(rc, kindof, full=True):
             f2 = frame_of(rc.to_dataframe(columns={n: n for n in rn}), enc)
             return f1 if f1 == f2 else {"#list/dict selection differ": [f1, f2]}
         o["rframe"] = opt(rframe)
+    if files:                         # the two exports, read back from scratch files
+        base = os.path.join(C.WORK, PID, f"io-{os.getpid()}")
+
+        def cell(n, c):
+            return enc(c if kindof.get(names[n]) == "str" else num_or_str(c))
+
+        def csvback():
+            import csv
+            rc.to_csv(base + ".csv")
+            with open(base + ".csv", newline="") as f:
+                rows = list(csv.reader(f))
+            return {"cols": rows[0][1:] if rows else [], "rows": [[cell(n, c) for n, c in enumerate(r[1:])] for r in rows[1:]]}
+
+        def fileback():
+            rc.to_file(base + ".txt")
+            with open(base + ".txt") as f:
+                return parse_text(f.read(), cell)
+        o["csv"] = opt(csvback)
+        o["file"] = opt(fileback)
     return o
 
 
@@ -378,6 +404,7 @@ def cfg_text(table, depth, rows, thorough, invariants):
   FirstFlavs <- MCFirstFlavs
   RCConfs <- MCRCConfs
   MaxRows = {rows}
+  SortMaxRows = 4
   GridMaxN = {40 if thorough else 30}
   GridMaxCols = {10 if thorough else 8}
   AxSize <- MCAxSize
@@ -462,7 +489,10 @@ def replay_group(job):
     for step in range(n):
         raised = False
         if step > 0:
-            raised = apply_real(w, obj, ops[step])
+            op = ops[step]
+            if op["op"] == "append_list":       # rendering only: the specification does not distinguish the sequence types
+                op = dict(op, **{"as": ("list", "tuple", "ndarray")[(zlib.crc32(key_of(ops).encode()) + step) % 3]})
+            raised = apply_real(w, obj, op)
         got = observe_real(w, obj, full=(heavy and step == n - 1))
         nxt = []
         why = None
@@ -576,7 +606,7 @@ def record(plan):
         priv, app = (lambda: pl_priv(obj)), (lambda op: pl_apply(obj, op))
     elif o == "rc":
         obj = rc_new(plan["mode"], plan["cols"], plan["kindof"], plan["rows"])
-        obs = lambda full=True: safe_obs("size", rc_obs, obj, plan["kindof"], full)
+        obs = lambda full=True, files=False: safe_obs("size", rc_obs, obj, plan["kindof"], full, files)
         priv, app = (lambda: rc_priv(obj)), (lambda op: rc_apply(obj, op))
     elif o == "grid":
         return [grid_observe(plan["n"], plan["nc"], plan["tr"], plan["kind"])]
@@ -595,7 +625,9 @@ def record(plan):
     n = len(plan["ops"])
     for k, op in enumerate(plan["ops"]):
         err = app(op)
-        evs.append({"ev": "op", "op": op, "err": err, "obs": obs(k % 4 == 3 or k == n - 1), "priv": priv()})
+        last = k == n - 1
+        evs.append({"ev": "op", "op": op, "err": err, "obs": obs(k % 4 == 3 or last, True) if last and o == "rc" else obs(k % 4 == 3 or last),
+                    "priv": priv()})
     return evs
 
 
@@ -674,7 +706,7 @@ def rand_plan_rc(rnd, maxops):
             else:
                 ops.append({"op": "append_dict", "row": [[n, cell(n)] for n in names] + [["zz", enc(1)]]})
         elif x < 0.35 and cols:
-            ops.append({"op": "append_list", "row": row()})
+            ops.append({"op": "append_list", "row": row(), "as": rnd.choice(["list", "list", "tuple", "ndarray"])})
         elif x < 0.7 or k == 0:
             order = names[:]
             rnd.shuffle(order)
@@ -829,10 +861,10 @@ def run(replay=None):
     C.workdir(PID)
     rnd = C.rng(20)
     SEED = C.seed()
-    FULL_EVERY = 6 if thorough else 16
+    FULL_EVERY = 8 if thorough else 16
     got = witness_known(V)
     # ---- 3a: record seeded random executions of the real classes (before any thread exists: pmap forks)
-    ntr = (2500, 600, 2500, 600) if thorough else (250, 80, 300, 100)
+    ntr = (1500, 500, 1500, 500) if thorough else (250, 80, 300, 100)
     plans = [rand_plan_pt(rnd, 40) for _ in range(ntr[0])] + [rand_plan_pl(rnd, 30) for _ in range(ntr[1])] \
         + [rand_plan_rc(rnd, 40) for _ in range(ntr[2])] + [rand_plan_comb(rnd) for _ in range(ntr[3])]
     gmax, cmax = (60, 12) if thorough else (30, 8)
@@ -856,7 +888,7 @@ def run(replay=None):
         except BaseException as e:            # re-raised in the main thread
             res[name] = e
     q = max(1, C.NCPU // 4)
-    rows = 5 if thorough else 4
+    rows = 5 if thorough else 4           # thorough: 5-row tables exist only after 5 appends, they are never sorted
     hp = hist_plan(thorough)
     th = [threading.Thread(target=job, args=("table", run_mc, "table", True, 0, rows, thorough, TABLE_INV), kwargs=dict(workers=q, coverage=thorough)),
           threading.Thread(target=job, args=("atomicpt", run_mc, "atomicpt", True, 0, 3, False, ["AtomicPT"]), kwargs=dict(workers=1, machines=["pt"])),
@@ -990,7 +1022,7 @@ def run(replay=None):
         "operations outside the property (value list / row of the wrong length, non-iterable values, dict rows with other keys than the columns) are "
         "followed by the machine spec only and counted unspecified",
         "keys/column names that collide with attribute names of the classes (e.g. 'keys', 'size') are not used",
-        "text output is compared after parsing DataFrame.to_string(); CSV/file export is not checked",
+        "text output is compared after parsing DataFrame.to_string(); CSV/file export of the RowCollector is read back at the end of each recorded trace",
         "private-state projection of the tracer (_keys, _data, column attributes) is trusted for drift detection only",
     ]
     C.cleanup(PID)
